@@ -70,26 +70,27 @@ def check_vector(v):
                 K = _K_CACHE[key]
                 if K is None:
                     continue
-            _pool, outs = tr.run_program(src, pair, prog, True, K)
-            n += 1
-            nsteps = len(prog) - 1
-            tags = {"format": fmt, "variant": variant, "modified": has_replace, "chunked": prog[0]["op"] == "read_chunks"}
-            case = {"format": fmt, "variant": variant, "pair": pair, "prog": prog}
-            if len(outs) < nsteps or any(o[0] == "err" for o in outs[:nsteps - 1]):
-                continue        # an earlier step failed: judged by C05 on that prefix
-            if any(p["op"] in ("index", "concat", "replace") for p in prog[1:-1]):
-                nt.append("%s|%s|%s|%s" % (fmt, variant, pair, json.dumps(prog, sort_keys=True)))
-            o = outs[-1]
-            exp = tr.expected_last(src, pair, prog, obs, lazy=True)
-            if o[0] == "err":
-                bad.append({"what": "writing a table read from file raised", "tags": dict(tags, kind="write-raises"),
-                            "vector": v, "case": case, "expected": repr(exp)[:300], "observed": o[1]})
-            elif (o[1] != exp) if not (has_replace or has_concat) else (field_texts(fmt, o[1]) != field_texts(fmt, exp)):
-                kind = "unmodified-bytes-differ" if not has_replace else "unreplaced-field-text-changed"
-                bad.append({"what": "written bytes are not the original bytes of the selected records" if not has_replace else
-                            "after replacing a column, other fields no longer carry their original text",
-                            "tags": dict(tags, kind=kind), "vector": v, "case": case,
-                            "expected": repr(exp)[:400], "observed": repr(o[1])[:400]})
+            for twin in ((False, True) if any(p["op"] == "concat" and p["u"] == 1 for p in prog) and prog[0]["op"] == "read" else (False,)):
+                _pool, outs = tr.run_program(src, pair, prog, True, K, twin=twin)
+                n += 1
+                nsteps = len(prog) - 1
+                tags = {"format": fmt, "variant": variant, "modified": has_replace, "chunked": prog[0]["op"] == "read_chunks", "second_reader": twin}
+                case = {"format": fmt, "variant": variant, "pair": pair, "prog": prog}
+                if len(outs) < nsteps or any(o[0] == "err" for o in outs[:nsteps - 1]):
+                    continue        # an earlier step failed: judged by C05 on that prefix
+                if any(p["op"] in ("index", "concat", "replace") for p in prog[1:-1]):
+                    nt.append("%s|%s|%s|%s" % (fmt, variant, pair, json.dumps(prog, sort_keys=True)))
+                o = outs[-1]
+                exp = tr.expected_last(src, pair, prog, obs, lazy=True)
+                if o[0] == "err":
+                    bad.append({"what": "writing a table read from file raised", "tags": dict(tags, kind="write-raises"),
+                                "vector": v, "case": case, "expected": repr(exp)[:300], "observed": o[1]})
+                elif (o[1] != exp) if not (has_replace or has_concat) else (field_texts(fmt, o[1]) != field_texts(fmt, exp)):
+                    kind = "unmodified-bytes-differ" if not has_replace else "unreplaced-field-text-changed"
+                    bad.append({"what": "written bytes are not the original bytes of the selected records" if not has_replace else
+                                "after replacing a column, other fields no longer carry their original text",
+                                "tags": dict(tags, kind=kind), "vector": v, "case": case,
+                                "expected": repr(exp)[:400], "observed": repr(o[1])[:400]})
     return {"n": n, "nt": nt, "bad": bad, "traces": 1}
 
 
